@@ -1,4 +1,4 @@
 SPECIFICATION Spec
-CONSTANTS MaxN = 4 MaxV = 3 AnyValues = FALSE AsIs_SortedReturn = FALSE Mut_WrongDirection = FALSE Mut_TieJitter = TRUE Thorough = FALSE
+CONSTANTS MaxN = 3 MaxV = 2 AnyValues = FALSE AsIs_SortedReturn = FALSE Mut_WrongDirection = FALSE Mut_TieJitter = TRUE Thorough = FALSE
 INVARIANT Inv_TieEqual
 CHECK_DEADLOCK FALSE
